@@ -445,4 +445,17 @@ theorem printed_perm_kept (cls : Cls) (tol : Rat) (A : List Entry) :
     (entryOp (printedEntries cls tol A)).Perm (entryOp (keptEntries tol A)) :=
   ((sortEntries_perm cls A).filter _).map _
 
+theorem keptEntries_self_of_entryOp {tol : Rat} {A' B : List Entry}
+    (h : entryOp A' = entryOp B) (hB : ∀ e ∈ B, GQ.isSmall tol e.2.1 = false) : keptEntries tol A' = A' := by
+  unfold keptEntries
+  rw [List.filter_eq_self]
+  intro e he
+  have hm : (e.1, e.2.1) ∈ entryOp A' := List.mem_map.2 ⟨e, he, rfl⟩
+  rw [h] at hm
+  obtain ⟨b, hb, hbe⟩ := List.mem_map.1 hm
+  have : b.2.1 = e.2.1 := by
+    have := congrArg Prod.snd hbe; simpa using this
+  simp [← this, hB b hb]
+
+
 end OFV.C20
